@@ -55,7 +55,7 @@ def skeleton(msg):
                         return None
                     t += ["c" if w == "code" else "d",
                           str(U(getattr(b, w).uuid))]
-                for k in x.symbolic_expressions:
+                for k in sorted(x.symbolic_expressions):
                     e = x.symbolic_expressions[k]
                     w = e.WhichOneof("value")
                     if w is None:
